@@ -14,6 +14,7 @@ import time
 import traceback
 
 HERE = os.path.dirname(os.path.dirname(os.path.abspath(__file__)))
+EVID = os.environ.get('PYVC_EVIDENCE_DIR') or os.path.join(HERE, 'evidence')
 
 from . import frontend, contract, run, native      # noqa
 
@@ -44,7 +45,7 @@ def sanitize(s):
 
 
 def write_replay(prop, res, ob, extra):
-    d = os.path.join(HERE, 'evidence', 'replays')
+    d = os.path.join(EVID, 'replays')
     os.makedirs(d, exist_ok=True)
     path = os.path.join(d, '%s__%s.json' % (prop, sanitize(ob['id'])))
     rec = dict(property=prop, obligation=ob['id'], kind=ob['kind'], target_kind=res['kind'], target=res['name'],
@@ -52,7 +53,7 @@ def write_replay(prop, res, ob, extra):
                solver_verdict=ob.get('verdict'), repo=frontend.REPO, source_sha256=frontend.source_hashes(), **extra)
     with open(path, 'w') as f:
         json.dump(rec, f, indent=1, default=str)
-    return os.path.relpath(path, HERE)
+    return os.path.relpath(path, HERE) if path.startswith(HERE) else path
 
 
 def replay_file(path):
@@ -231,8 +232,8 @@ def check(prop, tier, seed, t0):
     ev = dict(property_id=prop, tier=tier, seed=seed, level=level, coverage=cov,
               assumptions=[ASSUMPTIONS[k] for k in plan.get('assumptions', ['A1', 'A2', 'A3', 'A5', 'A6', 'A8', 'A9'])] + plan.get('extra_assumptions', []),
               wall_s=round(wall, 2), violations=n_viol)
-    os.makedirs(os.path.join(HERE, 'evidence'), exist_ok=True)
-    with open(os.path.join(HERE, 'evidence', '%s.json' % prop), 'w') as f:
+    os.makedirs(EVID, exist_ok=True)
+    with open(os.path.join(EVID, '%s.json' % prop), 'w') as f:
         json.dump(ev, f, indent=1, default=str)
 
     print('property %s tier=%s: %d obligations, %d discharged, %d violations, %d undecided, %d bounded checks, %.1fs' % (
